@@ -10,6 +10,8 @@ import JaqalProofs.Props.C14
 * `C05_no_consts` — no gate argument, loop count, subcircuit count (body and macros), qubit index, register size or alias
   bound of the result is a constant.
 * `C05_shadow` — a macro parameter is returned as it is, whatever the override dictionary says about its name.
+* `C05_qubit_name` — a declared single-qubit alias and a qubit with a non-constant index keep their name, the anonymous
+  `r[n]` is renamed `r[<value>]`; every qubit is rebuilt on the visited register.
 * `C05_frame` — block kinds, subcircuit flags, the gate / loop skeleton, gate names, macro names and parameter names,
   constants, native gates and usepulses are preserved.
 * `C05_revalidate` — every value of the result satisfies `ValOK` (C14): indices and slices are re-checked against the
@@ -29,9 +31,8 @@ theorem letVal_regLike {ov : List (String × Num)} {rv : Bool} {v v' : Val} (hv 
   · obtain ⟨nf, _, h⟩ := bind_ok h
     split at h
     · obtain ⟨ni, _, h⟩ := bind_ok h
-      split at h
-      · rw [mkQubit_eq h]; rfl
-      · obtain ⟨_, hq⟩ := getItem_eq h; rw [hq]; rfl
+      obtain ⟨_, hq⟩ := constIndexQubit_mk h
+      rw [mkQubit_eq hq]; rfl
     · rw [mkQubit_eq h]; rfl
   · split at h
     · obtain ⟨ns, _, h⟩ := bind_ok h
@@ -48,7 +49,7 @@ theorem letVal_regLike {ov : List (String × Num)} {rv : Bool} {v v' : Val} (hv 
 /-- what `fillInLet` returns: the rebuild of the visited registers, macros and statements -/
 theorem fillInLet_rebuilt {ov : List (String × Num)} {c c' : Circuit} (hw : WellFormed c) (h : fillInLet ov c = .ok c') :
     ∃ bs regs, c.body = .block false false (.int 1) bs ∧ c.registers.mapM (letVal ov true) = .ok regs ∧
-      Rebuilt (letVal ov false) (letVal ov false) c regs bs c' := by
+      Rebuilt (letVal ov false) (fun _ => letVal ov false) (letVal ov false) c regs bs c' := by
   obtain ⟨bs, hbs⟩ := hw.body
   unfold fillInLet letSx at h
   obtain ⟨sx, hsx, h⟩ := bind_ok h
@@ -66,7 +67,7 @@ theorem fillInLet_rebuilt {ov : List (String × Num)} {c c' : Circuit} (hw : Wel
   simp only [tailOf, pure, Except.pure] at hstmts
   cases hstmts
   refine ⟨bs, regs, hbs, hregs, ?_⟩
-  exact build_circuitSx (F := letVal ov false) (G := letVal ov false) hmacros hes hw.consts
+  exact build_circuitSx (F := letVal ov false) (Fm := fun _ => letVal ov false) (G := letVal ov false) hmacros hes hw.consts
     (mapM_all (fun a b ha hab => letVal_regLike ha hab) hregs hw.regs) h
 
 /-! ### Meaning -/
@@ -82,6 +83,7 @@ theorem C05_meaning (ov : List (String × Num)) (c c' : Circuit) (hw : WellForme
   exact Rebuilt_meaning (P := fun _ => True)
     (fun v v' b _ hf => ⟨(letVal_sem v false v' hf b).2.2.2, (letVal_sem v false v' hf b).1⟩)
     (fun v v' b _ hf => ⟨(letVal_sem v false v' hf b).1, fun hn => letVal_none (hn ▸ hf)⟩)
+    (fun _ v v' b _ hf => ⟨(letVal_sem v false v' hf b).2.2.2, (letVal_sem v false v' hf b).1⟩)
     hr hbs hB (allValsList_true bs) (fun m hm => ⟨hw.macros m hm, allVals_true m.body⟩)
 
 /-! ### No constant is left -/
@@ -118,9 +120,8 @@ theorem letVal_noConst {ov : List (String × Num)} : ∀ (v : Val) (rv : Bool) (
     split at h
     · obtain ⟨ni, hni, h⟩ := bind_ok h
       have h2 := noConst_not_isConst (resolveConstant_noConst hni)
-      split at h
-      · rw [mkQubit_eq h]; simp [noConst, h1, h2]
-      · obtain ⟨_, hq⟩ := getItem_eq h; rw [hq]; simp [noConst, h1, h2]
+      obtain ⟨_, hq⟩ := constIndexQubit_mk h
+      rw [mkQubit_eq hq]; simp [noConst, h1, h2]
     · rename_i hc
       rw [mkQubit_eq h]; simp [noConst, h1, hc]
   | regF n size _ =>
@@ -200,6 +201,59 @@ theorem C05_shadow_qubit (ov : List (String × Num)) (rv : Bool) (nm p i : Strin
   simp only [letVal, isConst, Bool.false_eq_true, if_false, bind, Except.bind, pure, Except.pure] at h
   exact mkQubit_eq h
 
+/-! ### Qubit names -/
+
+/-- `make_item_name(qubit.alias_from, qubit.alias_index)` -/
+def itemNameOf (src idx : Val) : Option String := (src.name?).bind (fun an => itemName an idx)
+
+/-- **C05_qubit_name**: the rebuilt qubit is `NamedQubit(nm, visited register, value of the index)`; a qubit whose index is
+not a constant, and a declared single-qubit alias (`map m r[n]`: its name is not `r[n]`), keep their name; the anonymous
+`r[n]` is renamed after the visited register and the value of the index (`r[2]`). -/
+theorem C05_qubit_name (ov : List (String × Num)) (name : String) (src idx v' : Val)
+    (h : letVal ov false (.qubit name src idx) = .ok v') :
+    ∃ nm nf ni, v' = .qubit nm nf ni ∧ letVal ov false src = .ok nf ∧
+      ((isConst idx = false ∨ itemNameOf src idx ≠ some name) → nm = name) ∧
+      (isConst idx = true → itemNameOf src idx = some name → ∃ an, nf.name? = some an ∧ itemName an ni = some nm) := by
+  simp only [letVal] at h
+  obtain ⟨nf, hnf, h⟩ := bind_ok h
+  split at h
+  · rename_i hc
+    obtain ⟨ni, _, h⟩ := bind_ok h
+    simp only [constIndexQubit, Bool.false_eq_true, if_false] at h
+    cases hn : itemNameOf src idx with
+    | none => simp only [itemNameOf] at hn; simp [hn, throw_eq] at h
+    | some nm0 =>
+      simp only [itemNameOf] at hn
+      simp only [hn] at h
+      by_cases hne : (name != nm0) = true
+      · simp only [hne, if_true] at h
+        refine ⟨name, nf, ni, mkQubit_eq h, hnf, fun _ => rfl, ?_⟩
+        intro _ he
+        simp only [Option.some.injEq] at he
+        subst he
+        simp at hne
+      · simp only [hne, Bool.false_eq_true, if_false] at h
+        have hname : nm0 = name := (by simpa using hne : name = nm0).symm
+        unfold FillIn.getItem at h
+        split at h
+        · simp [throw_eq] at h
+        · split at h
+          · simp [throw_eq] at h
+          · rename_i an han
+            split at h
+            · rename_i n' hn'
+              refine ⟨n', nf, ni, mkQubit_eq h, hnf, ?_, fun _ _ => ⟨an, han, hn'⟩⟩
+              intro hcase
+              rcases hcase with hcase | hcase
+              · rw [hc] at hcase; cases hcase
+              · exact absurd (by simp [hname]) hcase
+            · obtain ⟨_, _, h⟩ := bind_ok h
+              simp [throw_eq] at h
+  · rename_i hc
+    refine ⟨name, nf, idx, mkQubit_eq h, hnf, fun _ => rfl, ?_⟩
+    intro hc'
+    exact absurd hc' hc
+
 /-! ### Frame -/
 
 /-- what the pass is not responsible for in a statement: block kinds, subcircuit flags, the loop / gate skeleton, gate
@@ -260,6 +314,7 @@ theorem letVal_name {ov : List (String × Num)} {v v' : Val} (hv : isRegLike v =
   · obtain ⟨nf, _, h⟩ := bind_ok h
     split at h
     · obtain ⟨ni, _, h⟩ := bind_ok h
+      simp only [constIndexQubit, if_true] at h
       rw [mkQubit_eq h]; rfl
     · rw [mkQubit_eq h]; rfl
   · split at h
@@ -287,7 +342,8 @@ theorem mapM_map_eq {α β γ : Type} {f : α → M β} {g : α → γ} {g' : β
     cases h
     simp [hf a b hb, ih hbs]
 
-theorem macros_frame {F G : Val → M Val} : ∀ {ms ms' : List Macro}, List.Forall₂ (MacroRel F G) ms ms' →
+theorem macros_frame {Fm : Macro → Val → M Val} {G : Val → M Val} : ∀ {ms ms' : List Macro},
+    List.Forall₂ (fun m m' => MacroRel (Fm m) G m m') ms ms' →
     (∀ m ∈ ms, BlocksOK m.body) →
     List.Forall₂ (fun m m' => m'.name = m.name ∧ m'.params.map (·.1) = m.params.map (·.1) ∧ skel m'.body = skel m.body)
       ms ms' := by
@@ -382,9 +438,8 @@ theorem letVal_ok {ov : List (String × Num)} : ∀ (v : Val) (rv : Bool) (v' : 
     have h2 := letVal_class hnf hok.2.1
     split at h
     · obtain ⟨ni, hni, h⟩ := bind_ok h
-      split at h
-      · exact mkQubit_ok h h1 h2
-      · exact fgetItem_ok h h1 h2
+      obtain ⟨_, hq⟩ := constIndexQubit_mk h
+      exact mkQubit_ok hq h1 h2
     · exact mkQubit_ok h h1 h2
   | regF n size _ =>
     intro rv v' hok h
@@ -484,17 +539,8 @@ theorem C05_idempotent_val {ov : List (String × Num)} : ∀ (v : Val) (rv : Boo
     split at h
     · obtain ⟨ni, hni, h⟩ := bind_ok h
       have hc := noConst_not_isConst (resolveConstant_noConst hni)
-      split at h
-      · have := mkQubit_eq h; subst this; exact fin _ _ hc h
-      · unfold FillIn.getItem at h
-        split at h
-        · simp [throw_eq] at h
-        · split at h
-          · simp [throw_eq] at h
-          · split at h
-            · have := mkQubit_eq h; subst this; exact fin _ _ hc h
-            · obtain ⟨_, _, h⟩ := bind_ok h
-              simp [throw_eq] at h
+      obtain ⟨n', hq⟩ := constIndexQubit_mk h
+      have := mkQubit_eq hq; subst this; exact fin _ _ hc hq
     · rename_i hc
       have := mkQubit_eq h; subst this
       exact fin _ _ (by simpa using hc) h
@@ -572,6 +618,9 @@ example : (fillInLet [("n", .int 2)] exC).map cdigest = .error (.jaqal "index-ou
 -- a fractional size is rejected, and so is a fractional value where an index is needed
 example : (fillInLet [("n", .flt ⟨false, 25, -1⟩)] exC).map cdigest = .error (.jaqal "invalid-size") := by decide +kernel
 example : (fillInLet [("k", .flt ⟨false, 5, -1⟩)] exC).map cdigest = .error (.jaqal "index-not-integer") := by decide +kernel
+-- a declared single-qubit alias `map m r[k]` keeps its name as a gate argument, the anonymous `r[k]` becomes `r[1]`
+example : letVal ov6 false (.qubit "m" exR (.const "k" (.int 1))) = .ok (.qubit "m" exR6 (.int 1)) := by decide +kernel
+example : letVal ov6 false (.qubit "r[k]" exR (.const "k" (.int 1))) = .ok (.qubit "r[1]" exR6 (.int 1)) := by decide +kernel
 -- a second pass changes nothing
 example : ((fillInLet ov6 exC).bind (fillInLet [])).map cdigest = (fillInLet ov6 exC).map cdigest := by decide +kernel
 
@@ -584,6 +633,7 @@ end Jaqal.FillIn
 #print axioms Jaqal.FillIn.C05_shadow
 #print axioms Jaqal.FillIn.C05_shadow_gate
 #print axioms Jaqal.FillIn.C05_shadow_qubit
+#print axioms Jaqal.FillIn.C05_qubit_name
 #print axioms Jaqal.FillIn.C05_frame
 #print axioms Jaqal.FillIn.C05_revalidate
 #print axioms Jaqal.FillIn.C05_shrink_rejected
